@@ -365,6 +365,19 @@ theorem ble_adv_parse_encode (a : BleAdv.Adv) (hwf : BleAdv.WF a) :
 example : BleAdv.WF { vid := 0xFFF1, pid := 0x8000, disc := 0xF00, additional := false } := by
   refine ⟨by decide, by decide, by decide⟩
 
+/-- **the `AdStructures` walk of `matter_service_data` terminates**: the model's fuel `len + 1` is never
+exhausted (`WalkErr.fuel` is a distinct error, not the good value "no Matter record"), and the checked
+`rest.split_at(len)` is always in range. Shared by `AdvData::parse_adv` and `RecoveryAdvData::parse_adv`. -/
+theorem ble_adv_walk_terminates (adv : List Nat) :
+    (∃ r, BleAdv.matterServiceData (adv.length + 1) adv = .ok r) ∧
+    BleAdv.matterServiceData (adv.length + 1) adv ≠ .error .fuel ∧
+    BleAdv.matterServiceData (adv.length + 1) adv ≠ .error .panic :=
+  ⟨BleAdv.matterServiceData_ok adv, BleAdv.matterServiceData_no_fuel adv⟩
+/-- with too little fuel the model does answer `fuel` (two structures, one step) -/
+example : BleAdv.matterServiceData 1 [2, 1, 6, 2, 1, 6] = .error .fuel := rfl
+
+/-- `parseAdv` reports an error of the walk (fuel, failed split) as `Err.panic`, so this includes
+`ble_adv_walk_terminates` -/
 theorem ble_adv_parse_total (adv : List Nat) :
     NoPanic (BleAdv.parseAdv adv) ∧ NoPanic (BleAdv.parseServiceData adv) :=
   ⟨BleAdv.parseAdv_np adv, BleAdv.parseServiceData_np adv⟩
@@ -686,10 +699,10 @@ theorem ble_recovery_rejected :
     (∀ p : List Nat, p.length < BleRecovery.PAYLOAD_LEN → BleRecovery.parseServiceData p = .ok none) ∧
     (∀ (op : Nat) (rest : List Nat), op ≠ BleRecovery.OPCODE_NETWORK_RECOVERY →
       BleRecovery.parseServiceData (op :: rest) = .ok none) ∧
-    (∀ adv : List Nat, BleAdv.matterServiceData (adv.length + 1) adv = none → BleRecovery.parseAdv adv = .ok none) :=
+    (∀ adv : List Nat, BleAdv.matterServiceData (adv.length + 1) adv = .ok none → BleRecovery.parseAdv adv = .ok none) :=
   ⟨BleRecovery.parse_rejects_short, BleRecovery.parse_rejects_opcode, BleRecovery.parseAdv_rejects_no_matter⟩
 example : ([1, 0, 1, 2, 3] : List Nat).length < BleRecovery.PAYLOAD_LEN ∧ (0 : Nat) ≠ BleRecovery.OPCODE_NETWORK_RECOVERY ∧
-    BleAdv.matterServiceData 4 [0x02, 0x01, 0x05] = none := by decide
+    BleAdv.matterServiceData 4 [0x02, 0x01, 0x05] = .ok none := ⟨by decide, by decide, rfl⟩
 
 /-- soundness of an accepted payload: wire layout `01 vv id[8] ad …`, id verbatim, flag = bit 0 -/
 theorem ble_recovery_accepts_only_layout (p : List Nat) (r : BleRecovery.Rec)
